@@ -125,3 +125,22 @@ Definition P_hook_anchored (cfg : option settings) (anchors : list Z) (starts : 
 
 Definition P_timed (hs : hook_settings) (anchors : list Z) (starts : list (N * Z)) : bool :=
   forallb (fun h => P_hook_anchored (settings_of hs h) anchors (starts_of h starts)) (map fst hs).
+
+(* ---- a queue shared with other hooks, held by one of them ----
+   The sentence counts the executions of the hook that STARTED within a window; it does not
+   mention the instants at which the events arrived or at which their tasks were queued.  So
+   when a queue that the hook shares with other hooks is held for a while (a slow execution
+   of another hook, a back-off) and is then given back at an instant f, the window [f, m] that
+   begins there is a window like any other: however many tasks of the hook piled up behind the
+   holder and whenever they were queued, at most B + (m - f)/I (rounded up) of its executions
+   may start within it.  On real instants that is [window_ok] ([P_op]); on instants that are
+   observed late it is [anchored_ok] with the anchor f, provided the observer knows that no
+   execution of the hook was under way unseen at f.  Such an instant need not be one at which
+   the WHOLE operator is idle: it is enough that every queue that carries tasks of the hook is
+   empty or is blocked inside an execution the observer has seen and holds open.  Hence
+   anchors that are valid for some hooks only: *)
+Definition anchors_for (h : N) (anchors : list (Z * list N)) : list Z :=
+  map fst (filter (fun p => mem_N h (snd p)) anchors).
+
+Definition P_timed_for (hs : hook_settings) (anchors : list (Z * list N)) (starts : list (N * Z)) : bool :=
+  forallb (fun h => P_hook_anchored (settings_of hs h) (anchors_for h anchors) (starts_of h starts)) (map fst hs).
